@@ -808,6 +808,7 @@ def h_commit_file_ops(mode: str):
         c = h.ctx
         st = Store(h)
         st.install(h.reg)
+        h.reg.stale_state.add("Transaction")   # _commit_file_ops runs once per attempt on the same object
         misc.install_uuid(h.reg, c)
         tx = tx_object(h, st)
         base_cur = SOpt(c.fresh_bool("base_cur_none"), SInt(z3.Int("base_current_snapshot_id")))
@@ -967,7 +968,10 @@ def h_commit_file_ops(mode: str):
         par = kw.get("parent_snapshot_id")
         h.ensure("DERIVE:parent=base.current(or -1)", z3.If(base_cur.isnone, pyops.int_z(h.I.force(par)) == -1 if not isinstance(par, SOpt) else z3.BoolVal(False),
                                                             pyops.bool_z(pyops.py_eq(par, base_cur.val))) if not isinstance(par, SOpt) else pyops.bool_z(pyops.py_eq(par, base_cur)))
-        h.ensure("DERIVE:sequence-number=base.last+1", pyops.int_z(kw.get("sequence_number")) == base_lsn.z + 1)
+        _sq = kw.get("sequence_number")
+        h.ensure("DERIVE:sequence-number=base.last+1",
+                 z3.And(z3.Not(_sq.isnone), pyops.int_z(_sq.val) == base_lsn.z + 1) if isinstance(_sq, SOpt)
+                 else (pyops.int_z(_sq) == base_lsn.z + 1 if _sq is not None else z3.BoolVal(False)))
         sid = kw.get("snapshot_id")
         h.ensure("DERIVE:fresh-63-bit-snapshot-id", isinstance(sid, SInt))
         h.ensure("DERIVE:mutator-passed-through", kw.get("metadata_mutator") is mutator)
